@@ -20,6 +20,8 @@ impl EventSource for Sleep {
         let sleep_co = Arc::new(AtomicOption::some(co));
         get_scheduler().add_timer(self.dur, sleep_co.clone());
 
+        #[cfg(may_verif)]
+        may_queue::verif::point(may_queue::verif::site::SLEEP_SUB_ARMED, 0);
         // register the cancel data
         cancel.set_co(sleep_co);
         // re-check the cancel status
